@@ -585,13 +585,14 @@ CELER_CONSTEXPR_FUNCTION T eumod(T numer, T denom)
     T r = std::fmod(numer, denom);
     if (r < 0)
     {
-        if (denom >= 0)
+        // Shift into the positive range; a remainder smaller than half an
+        // ulp of the denominator rounds up to the denominator itself, which is
+        // equivalent to zero
+        T const abs_denom = (denom >= 0) ? denom : -denom;
+        r += abs_denom;
+        if (r >= abs_denom)
         {
-            r += denom;
-        }
-        else
-        {
-            r -= denom;
+            r = 0;
         }
     }
     return r;
